@@ -17,8 +17,6 @@ def register(add):
         "DESIGN.md 3/C03",
     )
 
-
-def _more(add):
     add(
         "C02",
         "exploration",
@@ -72,11 +70,35 @@ def _more(add):
         "Trusted: numeric constants in rtmon/contracts.py.",
         "DESIGN.md 3/C18",
     )
-
-
-_old_register = register
-
-
-def register(add):  # noqa: F811
-    _old_register(add)
-    _more(add)
+    add(
+        "C01",
+        "fault_enumeration",
+        "offline history checker (exactly-once / in-order subsequence / completed-implies-delivered) over real host <-> faulty FIFO line <-> independent reference NCP endpoint; all 5^k per-frame fault vectors, enumerated caller-cancellation points, long seeded random runs",
+        "Real AshProtocol against an independently written, specification-conforming NCP endpoint (windows 1..3) over "
+        "a FIFO line that drops, detectably corrupts, duplicates or stalls frames.  Uniquely marked payloads are "
+        "submitted by concurrent callers on both sides; the oracle checks that each side's upper-layer deliveries "
+        "are a duplicate-free in-order subsequence of the other's submissions, that every returned send was "
+        "delivered exactly once before it returned, that every frame the NCP saw acknowledged was handed up "
+        "exactly once, and that with at most three faulted frames followed by a clean line no payload is lost - "
+        "in particular not because another caller was cancelled (cancellations are placed on and after each wire "
+        "frame, at +0, +0.5 s and +1.7 s).  All fault vectors over the first k frames are enumerated "
+        "(k=5 quick, 6 thorough); long random runs wrap the 3-bit numbers hundreds of times.",
+        "Trusted: rtmon/ashref.RefNcpAsh as a conforming NCP; FIFO line without reordering; detectable corruption "
+        "only.  Liveness under continuing faults is not demanded (C05 decides termination).",
+        "DESIGN.md 3/C01",
+    )
+    add(
+        "C11",
+        "fault_enumeration",
+        "trace-specification monitor over real Gateway+AshProtocol in virtual time: all 256 RSTACK codes, ERROR codes, arrival instants incl. the exact timeout instant, all 64 frame-counter pairs, connection loss / EOF / clean close at every step",
+        "reset() and wait_for_startup_reset() are driven against a scripted peer and a recording application stub.  "
+        "The oracle checks: request bytes are exactly CANCEL+RST; the waiter completes iff an RSTACK(0x0B) arrived "
+        "while it waited and otherwise raises a timeout at exactly RESET_TIMEOUT; every other RSTACK code and every "
+        "ERROR code is reported once as an NCP failure and never completes the handshake; after completion both "
+        "directions restart at frame number 0; a connection loss releases the waiter at once with the connection "
+        "error, is reported to the application, never raises out of the protocol callback - including when it "
+        "lands in the loop iteration in which the timeout expires.",
+        "Trusted: schedule model (connection_lost via call_soon from an I/O callback); constants 0x0B and the RST "
+        "encoding; RESET_TIMEOUT read from the tree.",
+        "DESIGN.md 3/C11",
+    )
